@@ -69,6 +69,8 @@ def run(ctx, pid=PID, families=(("commit", 120, 600), ("retry", 60, 300)), mutan
     for fam, nq, nt in families:
         scen += core.random_scenarios(ctx, nt if thorough else nq, fam, start_run=run_no)
         run_no = scen[-1]["run"] + 1
+    scen += core.directed_scenarios(run_no)
+    run_no = scen[-1]["run"] + 1
     # the put || tryUnblock window (sequential: it pins the process to one P for an instant)
     win = core.window_scenarios(ctx, 24 if thorough else 8, run_no)
     run_no += len(win)
